@@ -51,6 +51,9 @@ type Case struct {
 }
 
 // Build constructs the abstract profile of a case.
+// diffBase makes Build mark the second sample as a sample of a diff base.
+var diffBase bool
+
 // buildMaps are the binaries of the profiles Build makes (a family may swap them).
 var buildMaps = enum.Maps2
 
@@ -67,6 +70,9 @@ func Build(sigma []enum.Kind, s1, s2 enum.Shape, v int) *ap.AP {
 	st1.Labels = map[string][]string{"k": {"x"}}
 	st2 := s2.Stack(sigma, valuePairs[v][1])
 	st2.Labels = map[string][]string{"k": {"x", "y"}}
+	if diffBase {
+		st2.Labels["pprof::base"] = []string{"true"}
+	}
 	a.Stacks = []ap.Stack{st1, st2}
 	return a
 }
@@ -210,6 +216,24 @@ func Run(c *vk.Ctx) {
 		}
 		buildMaps = enum.Maps2
 	}
+	// a difference against a base (-diff_base marks the base's samples with the label pprof::base=true): the
+	// total, and with it every percentage, refers to the base samples alone - with mean, to their counts alone
+	diffBase = true
+	for i := range shapes {
+		for j := i; j < len(shapes); j++ {
+			if depthOf(shapes[i])+depthOf(shapes[j]) > 2 {
+				continue
+			}
+			for v := 0; v < 3; v++ {
+				if c.Mine(idx) {
+					checkProfile(c, sigma, shapes[i], shapes[j], v, cfgs)
+					c.Count("family/diff-base", 1)
+				}
+				idx++
+			}
+		}
+	}
+	diffBase = false
 	// deep recursion: every plain stack of 4 and 5 frames over a1 and b (the same adjacency, or the same
 	// entry, several times in one sample: counted once per sample)
 	for d := 4; d <= 5; d++ {
